@@ -80,6 +80,9 @@ ASSUMPTIONS = [
     "direct writes into an attribute (c.selected_tracks.append) are not operations; independence is judged on "
     "everything observable on the sibling: vars(), every public non-callable attribute (class-level fall-backs "
     "included), the class dictionaries along the MRO, and a third instance created afterwards",
+    "'any container, MIDI-writer or sequencer class' = every class of mingus.containers (Instrument family included), "
+    "midi_track.MidiTrack, midi_file_out.MidiFile, Sequencer, SequencerObserver; keys.Key, tunings.StringTuning, the MIDI "
+    "reader's MidiFile and the scale classes are explored too but a dependence there is only counted, not judged",
     "'a copy of a note or container built from another' = Note(n) and NoteContainer(nc); a Bar/Track/Composition "
     "holding the very container it was given is containment, not a copy, and is not judged",
     "an operation that raises still counts as an operation (the sibling must be untouched); which operations raise "
@@ -1023,9 +1026,25 @@ def _owner(name):
     raise engine.HarnessError("unknown class %r" % name)
 
 
+# "any container, MIDI-writer or sequencer class": every class of mingus.containers, MidiTrack, the writer's MidiFile,
+# Sequencer and SequencerObserver.  The other classes in the table (keys.Key, tunings.StringTuning, the MIDI *reader*
+# and the scale classes) are explored the same way, but a dependence there is only counted and noted: the statement
+# does not name them.
+JUDGED_CLASSES = {"Note", "NoteContainer", "Bar", "Track", "Composition", "Suite", "Instrument", "Piano", "Guitar",
+                  "MidiInstrument", "MidiPercussionInstrument", "MidiTrack", "MidiFileOut", "Sequencer", "SequencerObserver"}
+
+
+def _report(judged, site, expected, observed, detail, tags):
+    if judged:
+        engine.S.problem(site, expected, observed, detail=detail, tags=tags)
+    else:
+        engine.S.count("dependence_in_class_outside_the_statement")
+
+
 def run_instances(case):
     """case = [class, [[method, assignment], ...]]"""
     S = engine.S
+    judged = case[0] in JUDGED_CLASSES
     ensure_tmp()
     SPACE.install_cold()
     CLS_SPACE.install_cold()
@@ -1044,17 +1063,17 @@ def run_instances(case):
     script = " ; ".join("a.%s(%s)" % (op[0], ", ".join("%s#%d" % (p, j) for p, j in op[1] if j)) for op in case[1])
     after_b = observe(b)
     if after_b != pristine:
-        S.problem("%s: sibling instance after [%s]" % (case[0], script), json.loads(pristine), json.loads(after_b),
-                  detail="operating on one instance changed a separately created one", tags={"kind": "sibling", "class": case[0]})
+        _report(judged, "%s: sibling instance after [%s]" % (case[0], script), json.loads(pristine), json.loads(after_b),
+                "operating on one instance changed a separately created one", {"kind": "sibling", "class": case[0]})
     after_defaults = class_defaults(ow.target)
     if after_defaults != defaults:
-        S.problem("%s: class defaults after [%s]" % (case[0], script), json.loads(defaults), json.loads(after_defaults),
-                  detail="operating on an instance changed the class-level defaults", tags={"kind": "class-defaults", "class": case[0]})
+        _report(judged, "%s: class defaults after [%s]" % (case[0], script), json.loads(defaults), json.loads(after_defaults),
+                "operating on an instance changed the class-level defaults", {"kind": "class-defaults", "class": case[0]})
     c = ow.make()
     fresh = observe(c)
     if fresh != pristine:
-        S.problem("%s: instance created after [%s]" % (case[0], script), json.loads(pristine), json.loads(fresh),
-                  detail="an instance created afterwards is not pristine", tags={"kind": "third", "class": case[0]})
+        _report(judged, "%s: instance created after [%s]" % (case[0], script), json.loads(pristine), json.loads(fresh),
+                "an instance created afterwards is not pristine", {"kind": "third", "class": case[0]})
 
 
 def _scripts(ops, maxlen, first):
@@ -1197,6 +1216,9 @@ def explore(ctx):
         if not ctx.only:
             ctx.guard("copies: scripts with an effect on the operated object", ctx.counter("copy_scripts_with_effect"), 200)
 
+    if ctx.counter("dependence_in_class_outside_the_statement"):
+        ctx.note("%d script observations showed instance dependence in a class the statement does not name (Key, StringTuning, "
+                 "MIDI reader, scale classes): counted, not judged" % ctx.counter("dependence_in_class_outside_the_statement"))
     if ctx.counter("arg_element_state_changed"):
         ctx.note("%d calls changed the state of a library object stored inside a list argument (counted, not judged)" % ctx.counter("arg_element_state_changed"))
     if ctx.counter("fft_cold_differs_from_bisect"):
